@@ -94,11 +94,24 @@ _EXC = {
 }
 
 
+PENDING = []        # Python exceptions raised inside callbacks (virtual arrays), innermost last
+
+
+def set_pending(exc):
+    PENDING.append(exc)
+
+
 def raise_error():
     kind = L.akb_error_kind()
     msg = L.akb_error()
     msg = msg.decode("utf-8", "surrogateescape") if msg is not None else ""
     L.akb_clear_error()
+    if PENDING:
+        # pybind11's error_already_set: the original Python exception travels through the C++ frames
+        exc = PENDING.pop()
+        del PENDING[:]
+        if kind == 9 or (kind == 3 and msg == "a Python callback raised an exception"):
+            raise exc
     if kind == 0:
         raise BridgeError("bridge call failed without an error record")
     raise _EXC.get(kind, RuntimeError)(msg)
